@@ -138,8 +138,19 @@ def rand_case(rng, size):
                           "spin": 100000 if hashed else 0, "legacy": "" if hashed or rng.random() < 0.5 else "CC1A"})
     # defined names: anywhere, any scope, pointing at any sheet (or at none)
     safe_refs = [x for x in names if not (x[0] in "'\"" or x[-1] in "'\"")]
-    for k in range(rng.choice([0, 1, 2, rng.randint(0, max(1, size // 2))])):
-        nm = rng.choice(["Name", "N\u00e4me", "_x", "\u540d\u524d", "Rng.A"]) + str(nxt())
+    # A name is unique per scope only: the same name may be global and local to several sheets (per-sheet print areas),
+    # and names in different scopes may differ in case only.  Within one scope names are kept apart case-insensitively.
+    scoped = set()
+    shared = ["_xlnm.Print_Area", "Total", "TOTAL", "total", "N\u00e4me", "Rng.A"]
+    for k in range(rng.choice([0, 1, 2, 3, rng.randint(0, max(1, size // 2))])):
+        if rng.random() < 0.5:
+            nm = rng.choice(shared)
+        else:
+            nm = rng.choice(["Name", "N\u00e4me", "_x", "\u540d\u524d", "Rng.A"]) + str(nxt())
+        local = rng.randint(0, ns - 1) if rng.random() < (0.7 if nm in shared else 0.35) else -1
+        if (nm.lower(), local) in scoped:
+            continue
+        scoped.add((nm.lower(), local))
         kind = rng.random()
         if kind < 0.7 and safe_refs:
             ref = rng.choice(safe_refs)
@@ -153,7 +164,7 @@ def rand_case(rng, size):
         else:
             ref, addr = "", rng.choice(["42", "\"text\"", "SUM(1;2)", "1+2"])
         steps.append({"a": "AddName", "home": rng.randint(0, ns), "name": nm, "addr": addr, "ref": ref,
-                      "local": rng.randint(0, ns - 1) if rng.random() < 0.35 else -1, "hidden": rng.random() < 0.2})
+                      "local": local, "hidden": rng.random() < 0.2})
     if rng.random() < 0.4:
         hashed = rng.random() < 0.7
         steps.append({"a": "SetWbProt", "lockStructure": rng.random() < 0.7, "lockWindows": rng.random() < 0.3,
@@ -207,6 +218,22 @@ def exemplars():
     kf4 = {"steps": [{"a": "Init", "sheets": ["S1"]}, {"a": "SetHf", "s": 1, "h": " padded header ", "f": "&Lfoot"},
                      {"a": "SaveLoad", "light": False}]}
     return [kf1, kf2, kf3, kf4]
+
+
+def scope_cases():
+    """The same defined name in several scopes: local to each of three sheets (kept with its own sheet, with another
+    sheet, at workbook level), global + local, and names that differ only in case in different scopes."""
+    def nm(home, name, ref, local, cell):
+        return {"a": "AddName", "home": home, "name": name, "addr": f"'{ref}'!${cell}", "ref": ref, "local": local, "hidden": False}
+    init = {"a": "Init", "sheets": ["P1", "P2", "P3"]}
+    save = {"a": "SaveLoad", "light": False}
+    return [
+        {"steps": [init, nm(1, "_xlnm.Print_Area", "P1", 0, "A$1:$C$9"), nm(2, "_xlnm.Print_Area", "P2", 1, "A$1:$D$8"),
+                   nm(3, "_xlnm.Print_Area", "P3", 2, "B$2:$E$7"), save, save]},
+        {"steps": [init, nm(0, "Total", "P1", -1, "A$1"), nm(0, "Total", "P2", 1, "B$2"), nm(0, "Total", "P3", 2, "C$3"), save]},
+        {"steps": [init, nm(2, "Total", "P2", 1, "B$2"), nm(1, "Total", "P1", -1, "A$1"), save]},          # local first, then global
+        {"steps": [init, nm(3, "Rate", "P1", 0, "A$1"), nm(1, "RATE", "P1", 1, "A$2"), nm(0, "rate", "P2", -1, "A$3"), save]},
+        {"steps": [init, nm(0, "X", "Gone", 0, "A$1"), nm(0, "X", "Gone", 1, "A$1"), nm(2, "X", "Gone", -1, "A$1"), save]}]
 
 
 # ------------------------------------------------------------------------------------------------------------------
@@ -264,8 +291,10 @@ def gen_cases(chk):
     n3 = len(cases)
     for k in range(60 if quick else 600):
         cases.append(link_case(rng))
+    sc = scope_cases()
+    cases += sc
     cases += exemplars()
-    chk.extra["cases"] = {"hyperlink_permutation_cases": len(cases) - n3 - 4,"tlc_paths_2_operations_then_save": n1, "of_all_such_paths": total_paths,
+    chk.extra["cases"] = {"hyperlink_permutation_cases": len(cases) - n3 - 4 - len(sc), "same_name_in_several_scopes_cases": len(sc),"tlc_paths_2_operations_then_save": n1, "of_all_such_paths": total_paths,
                           "tlc_simulated_histories_40_operations": n2 - n1, "generated_workbooks": n3 - n2,
                           "finding_exemplars": 4}
     for i, c in enumerate(cases):
@@ -356,7 +385,8 @@ def run(chk):
         "sit where LoadWb's Home rule puts it (localSheetId, else the sheet named in the address, else the workbook)",
         "collections are compared as sets plus a no-duplicate check (order of merges, comments, validations, conditional "
         "formats and names is not part of the statement); sheets and the rules of one conditional format are sequences",
-        "contract of the model: one comment per cell, distinct names, localSheetId below the sheet count, sheets are renamed "
+        "contract of the model: one comment per cell, defined names unique per (name, scope) - the same name may be global "
+        "and local to several sheets -, localSheetId below the sheet count, sheets are renamed "
         "only while they keep no defined names, a sheet is removed only while no name has a localSheetId; hyperlink "
         "tooltips, comment shapes beyond their target cell, and text with surrounding blanks other than header/footer are "
         "not generated",
